@@ -200,6 +200,38 @@ def check(run):
     ok = len(comp) == 1 and len(comp[0].generators) == 1 and len(comp[0].generators[0].ifs) == 1
     run.ob("R5-filters", "decoders.network.find_emails/single-filter", ok, f"{nm.rel}:{fe.lineno}", "e-mails are filtered by the domain validator only", "", mech="comprehension shape")
     run.floor("R5-filters", 7)
+    # ------------------------------------------------------------------ R7 extent of an embedded PE: the furthest end of raw data over ALL sections
+    ps = prog.fn("decoders.pe_file.pe_size")
+    pem = ps.module
+
+    def sec_end(e, v):
+        """e is <v>.PointerToRawData + <v>.SizeOfRawData (either order)"""
+        return isinstance(e, ast.BinOp) and isinstance(e.op, ast.Add) and {norm_src(e.left), norm_src(e.right)} == {f"{v}.PointerToRawData", f"{v}.SizeOfRawData"}
+    ok_ext, det = False, "no maximum over the section ends found"
+    for n in own_nodes(ps.node):
+        if isinstance(n, ast.Call) and common.is_name(n.func, "max") and n.args:
+            a0 = n.args[0]
+            if isinstance(a0, (ast.GeneratorExp, ast.ListComp)) and len(a0.generators) == 1 and not a0.generators[0].ifs and isinstance(a0.generators[0].target, ast.Name) \
+                    and norm_src(a0.generators[0].iter).endswith(".sections") and sec_end(a0.elt, a0.generators[0].target.id):
+                ok_ext = True
+            if len(n.args) == 2 and any(sec_end(x, v.target.id) for x in n.args for v in common.parents(n) if isinstance(v, ast.For) and isinstance(v.target, ast.Name)
+                                        and norm_src(v.iter).endswith(".sections")):
+                ok_ext = True       # size = max(size, section end) inside a loop over the sections
+        if isinstance(n, ast.For) and isinstance(n.target, ast.Name) and norm_src(n.iter).endswith(".sections"):
+            for st_ in ast.walk(n):
+                if isinstance(st_, ast.If) and isinstance(st_.test, ast.Compare) and len(st_.test.ops) == 1 and isinstance(st_.test.ops[0], (ast.Gt, ast.GtE)):
+                    envp = common.block_env(n.body, st_) or {}
+                    lhs = G.Atomizer(subst=envp).inline(st_.test.left)
+                    if sec_end(lhs, n.target.id) and len(st_.body) == 1 and isinstance(st_.body[0], ast.Assign) and \
+                            norm_src(st_.body[0].targets[0]) == norm_src(st_.test.comparators[0]):
+                        ok_ext = True
+    if not ok_ext:
+        lastidx = [x for x in own_nodes(ps.node) if isinstance(x, ast.Subscript) and norm_src(x.value).endswith(".sections")]
+        if lastidx:
+            det = f"the size is taken from `{norm_src(lastidx[0])}`: one section, not the furthest end over all of them"
+    run.ob("R7-pe-extent", "decoders.pe_file.pe_size/max-over-all-sections", ok_ext, f"{pem.rel}:{ps.lineno}",
+           "an embedded PE ends at the furthest end of raw data (PointerToRawData + SizeOfRawData) over all of its sections", det, mech="aggregate-shape match (3 spellings)")
+
     # ------------------------------------------------------------------ R6 label agreement with EXT_MAP
     ext_map = prog.const(fm, "EXT_MAP")
     for fq, ext in (("decoders.filename.find_executable_name", b".exe"), ("decoders.filename.find_library", b".dll")):
